@@ -37,7 +37,7 @@ def proc_item(scratch, size, mode, code, eintr=None):
 
 
 def describe(d):
-    keys = ["what", "kind", "writers", "reader", "nreaders", "close", "size", "mode", "code", "signal", "eintr"]
+    keys = ["what", "kind", "writers", "reader", "nreaders", "close", "size", "mode", "code", "signal", "share", "eintr"]
     return " ".join("%s=%s" % (k, jdn(d[Kw(k)])) for k in keys if Kw(k) in d and d[Kw(k)] is not None)
 
 
@@ -55,7 +55,42 @@ def shape_sig(d):
         return "execute-with-gc:code%s" % d[Kw("code")]
     if d[Kw("what")] == "queued":
         return "queued-then-read:%s:%s:%s" % (d[Kw("kind")], d[Kw("mode")], cls(d[Kw("size")]))
+    if d[Kw("what")] == "duplex":
+        return "duplex:%s" % cls(d[Kw("size")])
+    if d[Kw("what")] == "shared":
+        return "shared-redirect:%s" % d[Kw("share")]
     return "signal:%s" % d[Kw("signal")]
+
+
+SHARED_EXPECT = {"in-out": "out:ping\n", "in-err": "err:ping\n", "out-err": "out:\nerr:\n", "all": "out:ping\nerr:ping\n"}
+
+
+def judge_extra(d, r):
+    """duplex and shared-redirect scenarios"""
+    probs = []
+    what = d[Kw("what")]
+    if what == "duplex":
+        st_, wres, rres, sres, reply, total, bad = r
+        size = d[Kw("size")]
+        if st_ != "finished":
+            probs.append(("operation-left-suspended", "reader and writer parked on one stream, %d bytes: %r writer=%r reader=%r server=%r (server got %r bytes)" % (
+                size, st_, wres, rres, sres, total)))
+        elif wres != "ok" or sres != "ok" or rres != "eof":
+            probs.append(("operation-failed", "writer=%r reader=%r server=%r" % (wres, rres, sres)))
+        elif total != size or bad is not None or reply != "done:%d" % size:
+            probs.append(("bytes-lost-or-reordered", "sent %d, server received %r (first bad %r), reply %r" % (size, total, bad, reply)))
+    if what == "shared":
+        st_, code, out = r
+        want = SHARED_EXPECT[str(d[Kw("share")])]
+        if st_ == "stuck":
+            probs.append(("operation-left-suspended", "reading the child's output never ended"))
+        elif st_ != "finished":
+            probs.append(("operation-failed", "reading the child's output: %r (exit status %r)" % (st_, code)))
+        elif code != 7:
+            probs.append(("exit-status", "child (exit 7) with redirection %s: spawn/wait gave %r" % (d[Kw("share")], code)))
+        elif out != want:
+            probs.append(("subprocess-output", "redirection %s: received %r, expected %r" % (d[Kw("share")], out, want)))
+    return probs
 
 
 def judge_stream(d, r):
@@ -160,6 +195,8 @@ def run_items(chk, part, ds, variant="fast", chunk=8):
                     probs.append(("chunk-size", "ev/chunk %d returned %d bytes" % (d[Kw("size")], total)))
                 elif bad is not None:
                     probs.append(("order-violated", "position %r" % (bad,)))
+        if what in ("duplex", "shared"):
+            probs = judge_extra(d, r)
         if what == "signal":
             # killed by a signal: the wait result must not look like a normal small exit code 0
             if r[0] != "finished" or r[1] == 0:
@@ -176,6 +213,8 @@ def run_items(chk, part, ds, variant="fast", chunk=8):
                     continue
                 r2, _n = canonparse.parse(text2)
                 p2 = judge_stream(d, r2) if what == "stream" else (judge_proc(d, r2) if what == "proc" else [(k, "") for k in kinds])
+                if what in ("duplex", "shared"):
+                    p2 = judge_extra(d, r2)
                 if what in ("execute", "queued", "signal"):
                     # re-judge with the same rules as above
                     ok2 = ((what == "execute" and r2[0] == "finished" and r2[1] == d[Kw("code")]) or
@@ -254,6 +293,12 @@ def main():
               for k in ("pipe", "unix") for m in ("chunk", "read") for n in (1, 4096, 60000, 65536, 100000, 150000, 200000)
               if not (k == "pipe" and n > 65536)]
         run_items(chk, "queued-then-read", qd, chunk=4)
+        dx = [{Kw("what"): Kw("duplex"), Kw("scratch"): scratch, Kw("size"): n, Kw("eintr"): None}
+              for n in (1, 4096, 65536, 200000, 1 << 20) + (() if quick else (4 << 20,))]
+        run_items(chk, "duplex", dx, chunk=2)
+        sh = [{Kw("what"): Kw("shared"), Kw("scratch"): scratch, Kw("share"): Kw(m), Kw("eintr"): None}
+              for m in ("in-out", "in-err", "out-err", "all")]
+        run_items(chk, "shared-redirect", sh, chunk=1)
         sig = [{Kw("what"): Kw("signal"), Kw("scratch"): scratch, Kw("signal"): Kw(s), Kw("eintr"): None}
                for s in ("term", "kill", "int", "hup")]
         run_items(chk, "signals", sig, chunk=2)
